@@ -474,6 +474,48 @@ def collapse_case(pid, rng):
     return out, tag
 
 
+def side_cases(pid, seed, shard, k, hist, findings, wlines):
+    """the streams that are not solver traces (one-liners, ensembles, initial points, runs with a collapse, the signal
+    handler), for ONE case index: every random choice comes from case_rng(pid/wrap, seed, shard, k), so a stored finding
+    (`case['side']`) is replayed by calling this function again"""
+    rng = case_rng(pid + "/wrap", seed, shard, k)
+    n0 = len(findings); w0 = len(wlines)
+    if pid in ("C01", "C04", "C05"):
+        res, which, req = wrapper_case(pid, rng)
+        hist["wrapper:" + which] = hist.get("wrapper:" + which, 0) + 1
+        for key, what, case in res:
+            findings.append(Finding("monitor", key, what, case))
+        if req is not None:
+            wlines.append(req)
+    if pid in ("C03", "C04") and k % 5 == 0:
+        res, tag = collapse_case(pid, rng)
+        hist[tag] = hist.get(tag, 0) + 1
+        for key, what, case in res:
+            findings.append(Finding("monitor", key, what, case))
+    if pid == "C05" and k % 2 == 1:
+        res, tag, req = signal_case(rng)
+        hist[tag] = hist.get(tag, 0) + 1
+        for key, what, case in res:
+            findings.append(Finding("monitor", key, what, case))
+        if req is not None:
+            wlines.append(req)
+    if pid == "C01" and k % 2 == 0:
+        res, tag = ensemble_case(rng)
+        hist["ensemble:" + tag] = hist.get("ensemble:" + tag, 0) + 1
+        for key, what, case in res:
+            findings.append(Finding("monitor", key, what, case))
+    if pid == "C02":
+        hist["initial-points"] = hist.get("initial-points", 0) + 1
+        for key, what, case in initial_points_case(rng):
+            findings.append(Finding("monitor", key, what, case))
+    for f in findings[n0:]:
+        if isinstance(f.get("case"), dict):
+            f["case"]["side"] = {"pid": pid, "seed": seed, "shard": shard, "k": k}
+    for w in wlines[w0:]:
+        if isinstance(w[2], dict):
+            w[2]["side"] = {"pid": pid, "seed": seed, "shard": shard, "k": k}
+
+
 # ------------------------------------------------------------------ shard
 def run_shard(pid, seed, shard, ncases, tier, extra):
     common.import_mystic()
@@ -547,35 +589,7 @@ def run_shard(pid, seed, shard, ncases, tier, extra):
     # wrapper-level and initial-point cases
     wlines = []
     for k in range(max(2, ncases // 4)):
-        rng = case_rng(pid + "/wrap", seed, shard, k)
-        if pid in ("C01", "C04", "C05"):
-            res, which, req = wrapper_case(pid, rng)
-            hist["wrapper:" + which] = hist.get("wrapper:" + which, 0) + 1
-            for key, what, case in res:
-                findings.append(Finding("monitor", key, what, case))
-            if req is not None:
-                wlines.append(req)
-        if pid in ("C03", "C04") and k % 5 == 0:
-            res, tag = collapse_case(pid, rng)
-            hist[tag] = hist.get(tag, 0) + 1
-            for key, what, case in res:
-                findings.append(Finding("monitor", key, what, case))
-        if pid == "C05" and k % 2 == 1:
-            res, tag, req = signal_case(rng)
-            hist[tag] = hist.get(tag, 0) + 1
-            for key, what, case in res:
-                findings.append(Finding("monitor", key, what, case))
-            if req is not None:
-                wlines.append(req)
-        if pid == "C01" and k % 2 == 0:
-            res, tag = ensemble_case(rng)
-            hist["ensemble:" + tag] = hist.get("ensemble:" + tag, 0) + 1
-            for key, what, case in res:
-                findings.append(Finding("monitor", key, what, case))
-        if pid == "C02":
-            hist["initial-points"] = hist.get("initial-points", 0) + 1
-            for key, what, case in initial_points_case(rng):
-                findings.append(Finding("monitor", key, what, case))
+        side_cases(pid, seed, shard, k, hist, findings, wlines)
     if wlines:
         wreps = leandrv.run_driver([w[0] for w in wlines])
         for (line, cmp, case), rep in zip(wlines, wreps):
@@ -618,6 +632,28 @@ def replay(pid, path):
     d = json.load(open(path))
     case = common.unjson(d.get("case") or {})
     spec = case.get("spec")
+    side = case.get("side")
+    if spec is None and side:
+        # a case of the side streams: regenerate it from its PRNG coordinates and run it again
+        findings = []; hist = {}; wlines = []
+        side_cases(pid, int(side["seed"]), int(side["shard"]), int(side["k"]), hist, findings, wlines)
+        known = {e["class_key"] for e in framework.load_known(pid)}
+        bad = 0
+        for f in findings:
+            if f["class_key"] in known:
+                print("KNOWN-FINDING: property=%s %s [%s]" % (pid, f["what"], f["class_key"])); continue
+            print("monitor: [%s] %s" % (f["class_key"], f["what"])); bad += 1
+        if wlines:
+            leandrv.ensure_driver()
+            reps = leandrv.run_driver([w[0] for w in wlines])
+            for (line, cmp, c2), rep in zip(wlines, reps):
+                for key, what in cmp(rep):
+                    print("correspondence: [%s] %s" % (key, what)); bad += 1
+        if bad:
+            print("VIOLATION property=%s replay=%s" % (pid, path))
+            return 1
+        print("replay: property held on this case")
+        return 0
     if spec is None and d.get("correspondence_not_checking"):
         spec = common.unjson(d["correspondence_not_checking"][0]["case"]).get("spec")
     if spec is None:
